@@ -62,7 +62,7 @@ def main():
             shutil.copy(d, os.path.join(out, "patch.diff"))
             shutil.copy(demo, os.path.join(out, "demo_test.go.txt"))
             sub = "context" if re.search(r"^package context", open(demo).read(), re.M) else "."
-            extra = {"C02-r3m1": ["C01"], "C19-r3m2": ["C01", "C04"], "C04-m1": ["C03", "C10"], "C04-m2": ["C01", "C03"], "C08-m1": ["C01", "C12"], "C02-m2": ["C10"], "C07-m1": [], "C18-m1": []}.get(sid, [])
+            extra = {"C02-r3m1": ["C01"], "C19-r3m2": ["C01", "C04"], "C04-m1": ["C03", "C10"], "C04-m2": ["C01", "C03"], "C08-m1": ["C01", "C12"], "C02-m2": ["C10"], "C07-m1": [], "C18-m1": [], "C04-r4m1": ["C03"], "C04-r4m2": ["C15"], "C19-r4m2": ["C03", "C04"], "C08-r4m2": ["C09", "C14"], "C08-r4m1": ["C09", "C10"], "C02-r4m1": ["C01"], "C02-r4m2": ["C12"], "C09-r4m2": ["C15"], "C10-r4m2": ["C06", "C01"], "C06-r4m1": ["C10", "C01"], "C06-r4m2": ["C01", "C02"], "C16-r4m1": ["C17"], "C17-r4m1": ["C08", "C18"], "C20-r4m1": ["C08"]}.get(sid, [])
             env = dict(os.environ)
             if prop == "C18":
                 env["DEMO_RACE"] = "race"
